@@ -52,6 +52,8 @@ def scripts(B=16):
     S["big_stor"] = L + [["put", "STOR big", 5 * B], ["put", "STOR zero", 0], ["put", "STOR one", 1, {"c": "after"}]]
     S["no_dconn"] = L + [["pasv", "EPSV"], ["cmd", "TYPE I"], ["pasv", "EPSV"], ["dconnect"], ["cmd", "PWD"]]
     S["idle"] = L + [["cmd", "PWD"]]
+    # one passive listener serving several transfers in a row (no PASV / EPSV in between)
+    S["listener_reuse"] = L + [["pasv", "EPSV"], ["get", "RETR a.bin", {"p": None}], ["get", "RETR b.bin", {"p": None, "c": "after"}], ["put", "STOR reused.bin", B + 3, {"p": None}], ["get", "MLSD", {"p": None}], ["get", "RETR reused.bin", {"p": None}], ["quit"]]
     # command lines arriving in one segment (the server reads ahead while a handler runs)
     S["pipelined"] = L + [["raw", "PASV\r\nEPSV\r\n"], ["reply"], ["reply"], ["get", "RETR b.bin"], ["raw", "EPSV\r\nNOOP\r\nPASV\r\nEPSV\r\n"], ["reply"], ["reply"], ["reply"], ["reply"], ["raw", "MKD p1\r\nPWD\r\nRMD p1\r\nMLST a.bin\r\nNOOP\r\n"], ["reply"], ["reply"], ["reply"], ["reply"], ["reply"], ["quit"]]
     return S
